@@ -200,7 +200,7 @@ func init() {
 		ID:    "C14",
 		Title: "REPL-style evaluation, one top-level statement at a time, matches in-order Go",
 		Explanation: "Decided (the stable-address clause: a pointer obtained in one evaluation keeps aliasing its variable in every later one): O3 the slot array Env.Ints is (re)assigned only by newEnv, NewEnv, newEnv4Func, freeEnv and prepareEnv; PE1 prepareEnv installs a new array only after the IntAddressTaken error check and publishes cap(Ints) as IntBindMax when an address was taken; " +
-			"NB1 a variable becomes an unboxed IntBind only under IntBindMax == 0 || IntBindNum < IntBindMax; Q1 every &E.Ints[i] that leaves its expression (all of package fast, including imported interpreted packages) is preceded by E.IntAddressTaken = true on the same frame; A4b every function that addresses a variable's unboxed slot is entered only for IntBind variables (the variable being a parameter, or a local obtained from one of the functions that resolve a user expression to a place: rangeVars, Place, Resolve, ... — that clause found F34); V0 no &E.Vals[i] exists (boxed cells are addressed through reflect, so Vals may grow); V1 assignment code stores into a boxed cell and never replaces it; A3/A4/A5/A6 on the variable-assignment specialisations (the boxed arms are reached mostly by REPL histories). " +
+			"NB1 a variable becomes an unboxed IntBind only under IntBindMax == 0 || the slots it needs (two for complex128) still fit below IntBindMax; PE2 the limit is published before every compilation, not only before every run (found F44: the declaration that followed `p := &x` at slot 1024, or a complex128 at slot 1023, broke the interpreter for good); Q1 every &E.Ints[i] that leaves its expression (all of package fast, including imported interpreted packages) is preceded by E.IntAddressTaken = true on the same frame; A4b every function that addresses a variable's unboxed slot is entered only for IntBind variables (the variable being a parameter, or a local obtained from one of the functions that resolve a user expression to a place: rangeVars, Place, Resolve, ... — that clause found F34); V0 no &E.Vals[i] exists (boxed cells are addressed through reflect, so Vals may grow); V1 assignment code stores into a boxed cell and never replaces it; A3/A4/A5/A6 on the variable-assignment specialisations (the boxed arms are reached mostly by REPL histories). " +
 			"Not decided: that each evaluation sees the effects of all earlier ones (run-time state), the two-slot complex128 arithmetic on IntBindMax.",
 		Assumptions: []string{"reflect.Value.Addr() of a boxed cell does not point into Env.Vals", "Go's append/make semantics"},
 		Rules: []func(*Ctx){func(c *Ctx) {
@@ -208,6 +208,7 @@ func init() {
 			ruleOwnership(c, "O3-intaddr-owner", "fast", "Env", "IntAddressTaken", []string{"fast.Var.Address", "fast.Env.freeEnv", "fast.Import.intPlace"}, "set where an interior pointer is handed out, cleared only when the array is dropped")
 			rulePrepareEnv(c)
 			ruleNewBindMax(c)
+			rulePrepareBeforeCompile(c)
 			ruleInteriorPointers(c, "fast", "Q1-interior-pointer")
 			ruleIntsGuard(c, "fast", "A4-ints-guard")
 			ruleNoValsAddress(c, "fast", "V0-no-vals-address")
@@ -224,7 +225,9 @@ func init() {
 			{Name: "range-string-direct-store-any-class", File: "fast/range.go", Old: "direct := placeval != nil && placeval.IsVar() && placeval.Var.Desc.Class() == IntBind", New: "direct := placeval != nil && placeval.IsVar()"},
 			{Name: "import-mark-dropped", File: "fast/import.go", Old: "\timpenv.IntAddressTaken = true\n", New: "", Canary: true},
 			{Name: "prepareenv-realloc-unchecked", File: "fast/repl.go", Old: "\t\tif env.IntAddressTaken {\n\t\t\tc.Errorf(\"internal error: attempt to reallocate Env.Ints[] after one of its addresses was taken\")\n\t\t}\n", New: "", Canary: true},
-			{Name: "newbind-ignores-max", File: "fast/declaration.go", Old: "if (c.IntBindMax == 0 || c.IntBindNum < c.IntBindMax) &&", New: "if (c.IntBindMax == 0 || c.IntBindNum <= c.IntBindMax) &&"},
+			{Name: "newbind-ignores-max", File: "fast/declaration.go", Old: "if (c.IntBindMax == 0 || c.IntBindNum+slots <= c.IntBindMax) &&", New: "if (c.IntBindMax == 0 || c.IntBindNum <= c.IntBindMax) &&\n\t\t\tslots > 0 &&"},
+			{Name: "newbind-one-slot-for-complex", File: "fast/declaration.go", Old: "\t\tif t.Kind() == r.Complex128 {\n\t\t\tslots = 2 // complex128 occupies two uint64 slots\n\t\t}\n", New: ""},
+			{Name: "intbindmax-published-after-compile-only", File: "fast/repl.go", Old: "\tif env := ir.env; env != nil && env.IntAddressTaken {\n\t\tc.IntBindMax = cap(env.Ints)\n\t}\n", New: ""},
 			{Name: "address-mark-on-wrong-frame", File: "fast/address.go", Old: "\t\t\t\t\tenv = env.\n\t\t\t\t\t\tOuter\n\n\t\t\t\t\tenv.IntAddressTaken = true\n\t\t\t\t\treturn (*int)", New: "\t\t\t\t\tenv.IntAddressTaken = true\n\t\t\t\t\tenv = env.\n\t\t\t\t\t\tOuter\n\n\t\t\t\t\treturn (*int)"},
 			{Name: "quopow2-guard-dropped", File: "fast/var_ops.go", Old: "\tif va.Desc.Class() != IntBind {\n\t\t// boxed variable: the specialisations below address Env.Ints directly\n\t\treturn nil\n\t}\n", New: ""},
 			{Name: "new-ints-writer", File: "fast/compile.go", Old: "\trun.CurrEnv = env.Outer\n\tenv.freeEnv(run)", New: "\trun.CurrEnv = env.Outer\n\tenv.Ints = env.Ints[:0:0]\n\tenv.freeEnv(run)"},
